@@ -197,7 +197,7 @@ def main(tier):
         wmods = []
         if WIDE:
             wrng = Rng(rng.next())
-            wmods = [widefind.boundary_module()] + widefind.generate(wrng, 14 if tier == "quick" else 60, 5)
+            wmods = [widefind.boundary_module(), widefind.boundary_module_alpha(), widefind.boundary_module_xer()] + widefind.generate(wrng, 14 if tier == "quick" else 60, 5)
             t0 = time.time()
             build_modules(wmods, tag="wide", moddrv_extra=widefind.EXTRA)
             TIMES["wide_build_s"] = round(time.time() - t0, 1)
